@@ -5,7 +5,7 @@
    implementation's output; agreement with CommonMark itself is validated
    differentially on every run (checks/C35.md), it is not a theorem. *)
 From Coq Require Import String.
-From verif Require Import lib.Base model.C35_Bal model.C35_Inline model.C35 proofs.C35_proofs proofs.C35_naive proofs.C35_codespan.
+From verif Require Import lib.Base model.C35_Bal model.C35_Inline model.C35 proofs.C35_proofs proofs.C35_naive proofs.C35_codespan proofs.C35_inline.
 
 (* The delimiter-stack loop of processEmphasis terminates on every delimiter
    stack: the measure (remaining delimiter text + entries still to scan)
@@ -13,6 +13,21 @@ From verif Require Import lib.Base model.C35_Bal model.C35_Inline model.C35 proo
 Theorem C35_processEmphasis_terminates : forall ents, process_emphasis ents <> None.
 Proof. exact process_emphasis_terminates. Qed.
 Print Assumptions C35_processEmphasis_terminates.
+
+(* The inline parser of the model (main loop of inlineParser.render for the
+   covered constructs -- text, backslash escapes, character references, code
+   spans, emphasis runs, soft and hard line breaks -- followed by
+   processEmphasis and the merging of buffer.ops) terminates on every input:
+   every iteration of the main loop moves the position forward by at least one
+   byte (inline_step_progress), so the fuel length+1 is never exhausted.
+   Brackets and angle brackets are not covered (treated as text by the model). *)
+Theorem C35_inline_total : forall text, render_inline text <> None.
+Proof. exact inline_total. Qed.
+Print Assumptions C35_inline_total.
+
+Theorem C35_inline_step_consumes : forall text pos, (pos < snd (inline_step text pos))%nat.
+Proof. exact inline_step_progress. Qed.
+Print Assumptions C35_inline_step_consumes.
 
 (* The opener lower bounds (openersBottom, indexed by delimiter kind, length
    mod 3 and whether the closer can also open) are only an optimisation: on every
